@@ -230,7 +230,8 @@ def rule_exact_formatter(rep, rule="C-exact"):
     iff = ifs[0]
     x = fn.params[0]
     test = iff.test
-    if not (tf.is_call_to(idx, fn, test, "isclose") and len(test.args) >= 2):
+    std_isclose = isinstance(test, ast.Call) and norm(test.func) == "math.isclose" and idx.resolve_symbol(fn.module, test.func) is None
+    if not ((tf.is_call_to(idx, fn, test, "isclose") or std_isclose) and len(test.args) >= 2):
         rep.undecided(rule, fn.short, norm(test), "integer test is not a call of isclose(x, <integer>)")
         return
     comparand = test.args[1] if norm(test.args[0]) == x else test.args[0]
@@ -263,15 +264,26 @@ def rule_exact_formatter(rep, rule="C-exact"):
                     bad.append(norm(n))
     rep.check(not bad, rule, fn.short, norm(iff.orelse[0])[:80], ok="non-integers are written with repr (shortest round-tripping form)",
               bad="a fixed-precision format (%s) is applied to timestamps: they cannot come back bit-identical" % ", ".join(bad), loc=fn.where(iff.orelse[0]))
-    # tolerance of isclose
+    # tolerance of isclose: the callee's defaults, overridden by literal arguments of the call
     ic = idx.get("utilities.my_math:isclose")
-    rel = ic.defaults.get("rel_tol")
-    ab = ic.defaults.get("abs_tol")
-    extra = [k for k in test.keywords] + list(test.args[2:])
-    relv = ast.literal_eval(rel) if rel is not None else None
-    abv = ast.literal_eval(ab) if ab is not None else None
-    rep.check(relv is not None and relv <= 1e-14 and abv == 0 and not extra, rule, ic.short, "rel_tol=%s abs_tol=%s" % (relv, abv),
-              ok="near-integer tolerance is at most 1e-14 relative and 0 absolute", bad="numToStr rounds to an integer values further than 1e-14 (relative) from it")
+    if std_isclose:
+        tol = {"rel_tol": 1e-09, "abs_tol": 0.0}  # documented defaults of math.isclose
+        where = "math.isclose"
+    else:
+        tol = {}
+        for k in ("rel_tol", "abs_tol"):
+            d = ic.defaults.get(k)
+            tol[k] = ast.literal_eval(d) if d is not None else None
+        where = ic.short
+    undecidable = list(test.args[2:])
+    for k in test.keywords:
+        try:
+            tol[k.arg] = ast.literal_eval(k.value)
+        except Exception:
+            undecidable.append(k)
+    relv, abv = tol.get("rel_tol"), tol.get("abs_tol")
+    rep.check(relv is not None and relv <= 1e-14 and abv == 0 and not undecidable, rule, where, "rel_tol=%s abs_tol=%s" % (relv, abv),
+              ok="near-integer tolerance is at most 1e-14 relative and 0 absolute", bad="numToStr rounds to an integer values further than 1e-14 (relative) from it: a timestamp like 2.000000001 is written as 2")
     rep.floor(rule, 3)
 
 
@@ -411,6 +423,100 @@ def rule_short_order(rep, rule="C-order"):
     ok = "Start" in order_names[2] and "End" in order_names[3]
     rep.check(ok, rule, rd.short, "header variables: " + ", ".join(order_names), ok="3rd row is the tier start, 4th the tier end", bad="tier start/end are read from the wrong rows: %s" % order_names)
     rep.floor(rule, 5)
+
+
+# ------------------------------------------------------------------------------------ C-blocks
+
+
+def rule_block_order(rep, rule="C-blocks"):
+    """The short reader cuts the file into tier blocks by pairing adjacent offsets of a list; the list must be
+    ascending where it is paired, or tiers come back in another order / with another tier's rows.
+
+    Ordered-sequence typestate over the function's statements: a single scan (findAll / finditer) yields an ordered
+    list; a comprehension over one ordered list is ordered; concatenating two scans is not; `.sort()` / `sorted()`
+    restore it; adding the end-of-text sentinel (an expression over len(...)) at the end keeps it."""
+    idx = common.ctx()
+    fn = idx.get(SHORT_R)
+    rep.functions.add(fn.qual)
+    env = {}
+
+    def is_scan(c):
+        return isinstance(c, ast.Call) and norm(c.func).split(".")[-1] in ("findAll", "finditer")
+
+    def has_len(e):
+        return any(isinstance(n, ast.Call) and norm(n.func) == "len" for n in ast.walk(e))
+
+    def parts(e):
+        """-> list of 'O' (ordered run), 'U' (unordered), 'S' (end sentinel), 'X' (other element)"""
+        if isinstance(e, ast.Name):
+            return [env.get(e.id, "U")]
+        if is_scan(e):
+            return ["O"]
+        if isinstance(e, ast.Call) and norm(e.func) in ("sorted",):
+            return ["O"]
+        if isinstance(e, ast.Call) and norm(e.func) in ("list", "tuple") and len(e.args) == 1:
+            return parts(e.args[0])
+        if isinstance(e, (ast.ListComp, ast.GeneratorExp)) and len(e.generators) == 1:
+            src = parts(e.generators[0].iter)
+            return ["O"] if src == ["O"] else ["U"]
+        if isinstance(e, (ast.List, ast.Tuple)):
+            out = []
+            for x in e.elts:
+                if isinstance(x, ast.Starred):
+                    out += parts(x.value)
+                else:
+                    out.append("S" if has_len(x) else "X")
+            return out
+        if isinstance(e, ast.BinOp) and isinstance(e.op, ast.Add):
+            return parts(e.left) + parts(e.right)
+        return ["U"]
+
+    def fold(ps):
+        ps = list(ps)
+        while ps and ps[-1] == "S":
+            ps.pop()
+        return "O" if ps in ([], ["O"]) else "U"
+
+    pairings = []
+    for s in tf.stmts_in_order(fn):
+        # adjacent pairing on the current state, before this statement's own effect
+        for n in ast.walk(s):
+            if isinstance(n, (ast.ListComp, ast.GeneratorExp, ast.For)):
+                subs = {}
+                for x in ast.walk(n):
+                    if isinstance(x, ast.Subscript) and isinstance(x.value, ast.Name):
+                        subs.setdefault(x.value.id, set()).add(norm(x.slice))
+                for name, ix in subs.items():
+                    if any(a.replace(" ", "") in (b.replace(" ", "") + "+1", "1+" + b.replace(" ", "")) for a in ix for b in ix):
+                        pairings.append((name, n, env.get(name)))
+            if isinstance(n, ast.Call) and norm(n.func) in ("zip", "pairwise", "itertools.pairwise") and n.args and isinstance(n.args[0], ast.Name):
+                a0 = n.args[0].id
+                if norm(n.func) != "zip" or (len(n.args) == 2 and norm(n.args[1]).replace(" ", "") == a0 + "[1:]"):
+                    pairings.append((a0, n, env.get(a0)))
+        if isinstance(s, ast.Assign) and len(s.targets) == 1 and isinstance(s.targets[0], ast.Name):
+            env[s.targets[0].id] = fold(parts(s.value))
+        elif isinstance(s, ast.AugAssign) and isinstance(s.target, ast.Name) and s.target.id in env:
+            env[s.target.id] = fold([env[s.target.id]] + parts(s.value))
+        elif isinstance(s, ast.Expr) and isinstance(s.value, ast.Call) and isinstance(s.value.func, ast.Attribute) and isinstance(s.value.func.value, ast.Name):
+            name, meth = s.value.func.value.id, s.value.func.attr
+            if name in env:
+                if meth == "sort":
+                    env[name] = "O"
+                elif meth == "append" and s.value.args:
+                    env[name] = fold([env[name], "S" if has_len(s.value.args[0]) else "X"])
+                elif meth in ("extend", "insert"):
+                    env[name] = fold([env[name]] + (parts(s.value.args[0]) if meth == "extend" else ["X"]))
+    seen = set()
+    for name, node, state in pairings:
+        if state is None or (name, state) in seen:
+            continue
+        seen.add((name, state))
+        rep.check(state == "O", rule, fn.short, "adjacent offsets of %s paired into blocks" % name,
+                  ok="the list is one ordered scan, or was sorted after its last merge (a trailing end-of-text sentinel keeps the order)",
+                  bad="offsets of several scans are concatenated and paired without sorting: with an interval tier after a point tier the blocks are cut wrongly (tiers reordered / rows of one tier parsed as another's)", loc=fn.where(node))
+    if not seen:
+        rep.undecided(rule, fn.short, "tier block boundaries", "no adjacent-offset pairing found in the short reader; the rule's anchor is gone")
+    rep.floor(rule, 1)
 
 
 # ------------------------------------------------------------------------------------ C-scan
